@@ -236,12 +236,12 @@ pub fn assemble(sched_seed: u64, seg: SegPattern, max_write: Option<usize>, gen:
     let mut replies = Vec::new();
     let mut k = 0usize;
     let steps = gen.into_iter().map(|g| conv(g, &mut k, &mut replies)).collect();
-    Script { sched_seed, seg, replies, steps, max_write, picture: None, broken_pipe: true, greeting: None, lazy_events: false, version: None, vectored: false, events_polled_last: false, error_kind: 0, real_ms_per_advance: 0, noise_connection: false, greeting_tail: None, foreign_callers: false, shutdown_behaviour: 0 }
+    Script { sched_seed, seg, replies, steps, max_write, picture: None, broken_pipe: true, greeting: None, lazy_events: false, version: None, vectored: false, events_polled_last: false, error_kind: 0, real_ms_per_advance: 0, noise_connection: false, greeting_tail: None, foreign_callers: false, shutdown_behaviour: 0, events_next_cancelled: false }
 }
 
 /// Properties of the peer and the transport that no property statement restricts: the version the
 /// server announces and whether the transport takes vectored writes.
-pub fn environment() -> impl Strategy<Value = (Option<String>, bool, Option<u16>, u8, (bool, bool, u8))> {
+pub fn environment() -> impl Strategy<Value = (Option<String>, bool, Option<u16>, u8, (bool, bool, u8, bool))> {
     (
         prop_oneof![
             6 => Just(None),
@@ -257,12 +257,14 @@ pub fn environment() -> impl Strategy<Value = (Option<String>, bool, Option<u16>
         // on another OS thread
         // ... and what the transport's poll_shutdown does, should the client call it (completes / never
         // completes / fails)
-        (prop::bool::weighted(0.15), prop::bool::weighted(0.12), prop_oneof![4 => Just(0u8), 1 => Just(1), 1 => Just(2)]),
+        // ... and whether the application's pending `events.next()` is dropped and re-created before every step
+        (prop::bool::weighted(0.15), prop::bool::weighted(0.12), prop_oneof![4 => Just(0u8), 1 => Just(1), 1 => Just(2)], prop::bool::weighted(0.2)),
     )
 }
 
 pub fn in_environment(s: impl Strategy<Value = Script>) -> impl Strategy<Value = Script> {
-    (s, environment()).prop_map(|(mut s, (version, vectored, drop_events, error_kind, (noise, foreign, shutdown)))| {
+    (s, environment()).prop_map(|(mut s, (version, vectored, drop_events, error_kind, (noise, foreign, shutdown, ev_cancel)))| {
+        s.events_next_cancelled = ev_cancel;
         s.foreign_callers = foreign;
         s.shutdown_behaviour = shutdown;
         s.version = version;
